@@ -49,6 +49,37 @@ def last_seg(name):
     return name[cut:].replace('@@', '::') + tail
 
 
+ALLOCS = {}      # allocN -> bytes of the constant allocation (None for bytes that hold a relocation)
+_alloc_cur = None
+
+
+def _alloc_line(line):
+    """constant allocations printed after a body: `allocN (size: K, align: A) {` / hex rows / `}`"""
+    global _alloc_cur
+    m = re.match(r'^(alloc\d+) \(size: (\d+), align: \d+\) \{(.*)$', line)
+    if m:
+        _alloc_cur = m.group(1)
+        ALLOCS[_alloc_cur] = []
+        if m.group(3).strip().endswith('}'):
+            _alloc_cur = None
+        return True
+    if _alloc_cur is None:
+        return False
+    if line.strip() == '}':
+        _alloc_cur = None
+        return True
+    row = line
+    if '\u2502' in row:
+        parts = row.split('\u2502')
+        row = parts[-2] if len(parts) >= 2 else parts[0]
+    for tok in row.split():
+        if re.match(r'^[0-9a-f]{2}$', tok):
+            ALLOCS[_alloc_cur].append(int(tok, 16))
+        elif tok == '__':
+            ALLOCS[_alloc_cur].append(None)
+    return True
+
+
 def parse_mir(path, span_path=None):
     fns = []
     consts = {}
@@ -56,6 +87,8 @@ def parse_mir(path, span_path=None):
     bb = None
     for line in open(path):
         line = line.rstrip('\n')
+        if cur is None and (_alloc_cur is not None or line.startswith('alloc')) and _alloc_line(line):
+            continue
         if line.startswith('const ') or line.startswith('static '):
             mc = re.match(r'^const (.*::promoted\[\d+\]): (.*) = \{$', line)
             if mc:
@@ -365,6 +398,9 @@ def _const(c):
     m = re.match(r'^(-?[\d.]+(?:[eE][-+]?\d+)?)(f32|f64)$', c)
     if m:
         return ('float', float(m.group(1)))
+    m = re.match(r'^Slice \{ alloc_id: (alloc\d+), meta: (\d+) \}: (.*)$', c)
+    if m:
+        return ('calloc', m.group(1), int(m.group(2)), m.group(3))
     if c.startswith('{') or c.startswith('ZeroSized'):
         return ('opaque', c)
     m = re.match(r'^(?:core::|std::)?(?:num::<impl ([ui](?:8|16|32|64|size))>|([ui](?:8|16|32|64|size)))::(MAX|MIN|BITS)$', c)
